@@ -459,18 +459,46 @@ def _py_namespace(ts, t2s):
             'min': _py_min, 'max': _py_max, 'coalesce': _py_coalesce, 'len': len, 'abs': abs}
 
 
-def plain_grid():
-    """None-free plain objects covering all combinations of a few attribute values."""
+def _constants(e, ints, strs):
+    if not isinstance(e, list) or not e:
+        return
+    if e[0] == 'int':
+        ints.add(e[1])
+    elif e[0] == 'str':
+        strs.add(''.join(e[1]))
+    elif e[0] in ('intuple', 'notintuple'):
+        for c in e[2]:
+            if isinstance(c, list):
+                strs.add(''.join(c))
+            else:
+                ints.add(c)
+    for c in e[1:]:
+        if isinstance(c, list):
+            _constants(c, ints, strs)
+
+
+def plain_grid(q):
+    """None-free plain objects covering combinations of attribute values around the constants of the query."""
+    ints, strs = set(), set()
+    for part in [q['cond']] + list(q['res']) + [k for k, d in q['ord']]:
+        _constants(part, ints, strs)
+    ivals = sorted(set([-1, 0, 1, 2]) | set(sorted(ints)[:4]) | set(i - 1 for i in sorted(ints)[:2]))[:8]
+    svals = sorted(set(['', 'a', 'ab']) | set(sorted(strs)[:5]) | set(x.upper() for x in sorted(strs)[:2]))[:9]
     u = [_Obj(id=1, n=1, ts=_Coll()), _Obj(id=2, n=-1, ts=_Coll())]
     ts = []
-    for a in (-2, -1, 0, 1, 2):
-        for b in (-2, -1, 0, 1, 2):
-            for s in ('', 'a', 'ab', 'A_', 'a%b'):
+    for a in ivals:
+        for b in ivals:
+            for s in svals:
                 for f in (False, True):
                     o = _Obj(id=len(ts) + 1, a=a, b=b, s=s, flag=f, ref=u[(a + b) % 2])
                     o.ref.ts.append(o)
                     ts.append(o)
     return ts, u
+
+
+def _ifexp_test_size(tree):
+    import ast
+    return sum(len(list(ast.walk(n.test))) for n in ast.walk(tree) if isinstance(n, ast.IfExp))
 
 
 def decompiler_changes_meaning(q, way):
@@ -481,12 +509,12 @@ def decompiler_changes_meaning(q, way):
     import ast
     import copy
     from pony.orm.decompiling import decompile
-    ts, t2s = plain_grid()
+    ts, t2s = plain_grid(q)
     ns = _py_namespace(ts, t2s)
     src_name = q['loops'][0][1]
+    text = '(' + body_src(q) + ')'
     try:
         if way == 'generator':
-            text = '(' + body_src(q) + ')'
             original = list(eval(text, ns))
             obj = eval(text, ns)
         else:
@@ -498,6 +526,17 @@ def decompiler_changes_meaning(q, way):
         tree = copy.deepcopy(decompile(obj)[0])
     except Exception:
         return None
+    orig_text = text if way == 'generator' else src(q['cond'])
+    if _ifexp_test_size(tree) > _ifexp_test_size(ast.parse(orig_text, mode='eval').body):
+        # structural witness: the test of a conditional expression has absorbed other conditions (invisible to
+        # CPython when those only exclude missing values)
+        return True
+    if way == 'generator':
+        # structural witness: a filter clause of the generator is gone from the decompiled AST (its test was merged
+        # into a conditional expression); invisible to CPython when the filter only excludes missing values
+        orig_tree = ast.parse(text, mode='eval').body
+        if sum(len(g.ifs) for g in tree.generators) < sum(len(g.ifs) for g in orig_tree.generators):
+            return True
 
     class Rename(ast.NodeTransformer):
         def visit_Name(self, n):
